@@ -1,1 +1,941 @@
-/- C05 — theorems (placeholder until the property is built). -/
+/-
+  C05 — Configuration checking completes, preserves and polices every parameter.
+
+  The theorems are about the executable model `Model/Config.lean` instantiated with the tables the
+  translator regenerated from the step modules on this run (`Generated/Schemas.lean`), and about
+  the hand-written documentation tables of `Model/ConfigSpec.lean`.
+
+  Contents
+    1. dictionaries (`d[k] = v`, lookup)
+    2. the default-insertion sequence of any class (`runActions`): lookup table of the result,
+       key order of the result, idempotence — for every action list satisfying `wfActions`
+    3. `classCheck`: user keys kept, defaults added, idempotent, accepted iff guards + schema
+    4. the generated tables: well-formed, defaults = documented defaults            (`decide`)
+    5. every generated schema entry against its documented domain, for ALL values
+    6. counterexamples (findings): NaN inside a list, multi-character band names,
+       a reused machine
+-/
+import PandoraModel.Model.ConfigSpec
+import PandoraModel.Generated.Schemas
+
+namespace Pandora.C05
+open Pandora Pandora.Config Pandora.ConfigSpec
+
+/-! ### Dictionaries -/
+
+theorem hasKey_iff_mem_keys (d : Dict) (k : String) : Dict.hasKey d k = true ↔ k ∈ Dict.keys d := by
+  induction d with
+  | nil => simp [Dict.hasKey, Dict.lookup, Dict.keys]
+  | cons kv rest ih =>
+    obtain ⟨k', v⟩ := kv
+    by_cases h : k' = k
+    · simp [Dict.hasKey, Dict.lookup, Dict.keys, h]
+    · have : Dict.hasKey ((k', v) :: rest) k = Dict.hasKey rest k := by
+        simp [Dict.hasKey, Dict.lookup, h]
+      rw [this, ih]
+      simp [Dict.keys, List.mem_cons, Ne.symm h]
+
+theorem lookup_none_iff (d : Dict) (k : String) : Dict.lookup d k = none ↔ k ∉ Dict.keys d := by
+  rw [← hasKey_iff_mem_keys]
+  simp [Dict.hasKey]
+
+theorem setKey_absent (d : Dict) (k : String) (v : JVal) (h : Dict.lookup d k = none) :
+    Dict.setKey d k v = d ++ [(k, v)] := by
+  induction d with
+  | nil => simp [Dict.setKey]
+  | cons kv rest ih =>
+    obtain ⟨k', v'⟩ := kv
+    by_cases hk : k' = k
+    · simp [Dict.lookup, hk] at h
+    · simp [Dict.lookup, hk] at h
+      simp [Dict.setKey, hk, ih h]
+
+theorem keys_setKey_present (d : Dict) (k : String) (v : JVal) (h : Dict.lookup d k ≠ none) :
+    Dict.keys (Dict.setKey d k v) = Dict.keys d := by
+  induction d with
+  | nil => simp [Dict.lookup] at h
+  | cons kv rest ih =>
+    obtain ⟨k', v'⟩ := kv
+    by_cases hk : k' = k
+    · simp [Dict.setKey, hk, Dict.keys]
+    · simp [Dict.lookup, hk] at h
+      have := ih h
+      simp [Dict.setKey, hk, Dict.keys] at this ⊢
+      exact this
+
+theorem lookup_setKey (d : Dict) (k k' : String) (v : JVal) :
+    Dict.lookup (Dict.setKey d k v) k' = if k = k' then some v else Dict.lookup d k' := by
+  induction d with
+  | nil =>
+    by_cases h : k = k' <;> simp [Dict.setKey, Dict.lookup, h]
+  | cons kv rest ih =>
+    obtain ⟨k0, v0⟩ := kv
+    by_cases h0 : k0 = k
+    · subst h0
+      by_cases h : k0 = k' <;> simp [Dict.setKey, Dict.lookup, h]
+    · by_cases h : k = k'
+      · subst h
+        simp [Dict.setKey, Dict.lookup, h0, ih]
+      · by_cases h1 : k0 = k'
+        · subst h1
+          simp [Dict.setKey, Dict.lookup, h0, h]
+        · simp [Dict.setKey, Dict.lookup, h0, h1, ih, h]
+
+
+/-! ### The default-insertion sequence of a class's `check_conf` -/
+
+/-- keys a default is inserted for, in order -/
+def defaultKeys : List Action → List String
+  | [] => []
+  | .default k _ :: r => k :: defaultKeys r
+  | .defaultElifNaN k _ :: r => k :: defaultKeys r
+  | _ :: r => defaultKeys r
+
+/-- keys whose user value `"NaN"` is replaced by the float -/
+def nanKeys : List Action → List String
+  | [] => []
+  | .defaultElifNaN k _ :: r => k :: nanKeys r
+  | _ :: r => nanKeys r
+
+/-- the default the sequence inserts for `k` -/
+def defaultOf : List Action → String → Option JVal
+  | [], _ => none
+  | .default k v :: r, key => if k = key then some v else defaultOf r key
+  | .defaultElifNaN k v :: r, key => if k = key then some v else defaultOf r key
+  | _ :: r, key => defaultOf r key
+
+/-- what a user value becomes -/
+def nanFix (acts : List Action) (k : String) (v : JVal) : JVal :=
+  if (nanKeys acts).contains k && pyEq v (.str "NaN") then .float .nan else v
+
+/-- well-formed action list: one default per key, the value of a `"NaN"`-rewriting default is not
+    itself `"NaN"`, and a guard `cfg[k] != v` is compatible with what follows it (no later rewrite
+    of `k`, a later default of `k` passes the guard) -/
+def wfActions : List Action → Bool
+  | [] => true
+  | .default k _ :: r => !(defaultKeys r).contains k && wfActions r
+  | .defaultElifNaN k v :: r => !(defaultKeys r).contains k && !(pyEq v (.str "NaN")) && wfActions r
+  | .guardNe k v _ :: r =>
+    !(nanKeys r).contains k && (match defaultOf r k with | some d => pyEq d v | none => true) && wfActions r
+  | .refuseGrids :: r => wfActions r
+
+theorem nanKeys_sub_defaultKeys (acts : List Action) (k : String) (h : k ∈ nanKeys acts) :
+    k ∈ defaultKeys acts := by
+  induction acts with
+  | nil => simp [nanKeys] at h
+  | cons a r ih =>
+    cases a <;> simp [nanKeys, defaultKeys] at h ⊢
+    · exact Or.inr (ih h)
+    · rcases h with h | h
+      · exact Or.inl h
+      · exact Or.inr (ih h)
+    · exact ih h
+    · exact ih h
+
+theorem defaultOf_none_of_not_mem (acts : List Action) (k : String) (h : k ∉ defaultKeys acts) :
+    defaultOf acts k = none := by
+  induction acts with
+  | nil => simp [defaultOf]
+  | cons a r ih =>
+    cases a <;> simp [defaultKeys] at h <;> simp [defaultOf, *]
+    · rename_i k0 v0; intro e; exact absurd e.symm h.1
+    · rename_i k0 v0; intro e; exact absurd e.symm h.1
+
+theorem pyEq_nan_NaN : pyEq (.float .nan) (.str "NaN") = false := by
+  simp [pyEq, JVal.toNum?]
+
+theorem nanFix_nil (k : String) (v : JVal) : nanFix [] k v = v := by simp [nanFix, nanKeys]
+
+theorem nanFix_of_not_mem (acts : List Action) (k : String) (v : JVal) (h : k ∉ nanKeys acts) :
+    nanFix acts k v = v := by simp [nanFix, h]
+
+@[simp] theorem nanFix_default (k0 : String) (v0 : JVal) (rest : List Action) (k : String) (u : JVal) :
+    nanFix (.default k0 v0 :: rest) k u = nanFix rest k u := by simp [nanFix, nanKeys]
+
+@[simp] theorem nanFix_guard (k0 : String) (v0 : JVal) (e : Err) (rest : List Action) (k : String) (u : JVal) :
+    nanFix (.guardNe k0 v0 e :: rest) k u = nanFix rest k u := by simp [nanFix, nanKeys]
+
+@[simp] theorem nanFix_refuse (rest : List Action) (k : String) (u : JVal) :
+    nanFix (.refuseGrids :: rest) k u = nanFix rest k u := by simp [nanFix, nanKeys]
+
+theorem nanFix_elif_ne (k0 : String) (v0 : JVal) (rest : List Action) (k : String) (u : JVal) (h : k0 ≠ k) :
+    nanFix (.defaultElifNaN k0 v0 :: rest) k u = nanFix rest k u := by
+  have : ¬ k = k0 := fun e => h e.symm
+  simp [nanFix, nanKeys, this]
+
+theorem nanFix_elif_self_nan (k0 : String) (v0 : JVal) (rest : List Action) (u : JVal)
+    (h : pyEq u (.str "NaN") = true) : nanFix (.defaultElifNaN k0 v0 :: rest) k0 u = .float .nan := by
+  simp [nanFix, nanKeys, h]
+
+theorem nanFix_elif_self_not (k0 : String) (v0 : JVal) (rest : List Action) (u : JVal)
+    (h : ¬ pyEq u (.str "NaN") = true) : nanFix (.defaultElifNaN k0 v0 :: rest) k0 u = u := by
+  simp [nanFix, nanKeys, h]
+
+theorem runActions_ok_cons {l r : ImgInfo} {a : Action} {rest : List Action} {cfg out : Dict}
+    (h : runActions l r (a :: rest) cfg = .ok out) :
+    ∃ cfg', runAction l r cfg a = .ok cfg' ∧ runActions l r rest cfg' = .ok out := by
+  simp only [runActions] at h
+  cases hA : runAction l r cfg a with
+  | error e => simp [hA] at h
+  | ok cfg' => exact ⟨cfg', rfl, by simpa [hA] using h⟩
+
+/-- every user key keeps its value (up to the `"NaN"` rewrite) and every omitted key gets the
+    default of the sequence — as a lookup table -/
+theorem runActions_lookup (l r : ImgInfo) (acts : List Action) :
+    ∀ (cfg out : Dict), wfActions acts = true → runActions l r acts cfg = .ok out → ∀ k,
+      Dict.lookup out k =
+        match Dict.lookup cfg k with
+        | some u => some (nanFix acts k u)
+        | none => defaultOf acts k := by
+  induction acts with
+  | nil =>
+    intro cfg out _ h k
+    simp [runActions] at h
+    subst h
+    cases Dict.lookup cfg k <;> simp [nanFix_nil, defaultOf]
+  | cons a rest ih =>
+    intro cfg out hwf h k
+    obtain ⟨cfg', hA, hR⟩ := runActions_ok_cons h
+    cases a with
+    | default k0 v0 =>
+      simp only [wfActions, Bool.and_eq_true, Bool.not_eq_true', List.contains_eq_mem,
+        decide_eq_false_iff_not] at hwf
+      have hnd : k0 ∉ defaultKeys rest := by simpa using hwf.1
+      have hnn : k0 ∉ nanKeys rest := fun hm => hnd (nanKeys_sub_defaultKeys rest k0 hm)
+      have ih' := ih cfg' out hwf.2 hR k
+      simp only [runAction] at hA
+      by_cases hk : Dict.hasKey cfg k0 = true
+      · simp [hk] at hA; subst hA
+        rw [ih']
+        cases hl : Dict.lookup cfg k with
+        | some u => simp
+        | none =>
+          have : k0 ≠ k := by
+            intro e; subst e; simp [Dict.hasKey, hl] at hk
+          simp [defaultOf, this]
+      · simp [hk] at hA; subst hA
+        rw [ih', lookup_setKey]
+        by_cases e : k0 = k
+        · subst e
+          have hl : Dict.lookup cfg k0 = none := by
+            simpa [Dict.hasKey] using hk
+          simp [hl, defaultOf, nanFix_of_not_mem rest k0 v0 hnn]
+        · simp [e, defaultOf]
+    | defaultElifNaN k0 v0 =>
+      simp only [wfActions, Bool.and_eq_true, Bool.not_eq_true', List.contains_eq_mem,
+        decide_eq_false_iff_not] at hwf
+      have hnd : k0 ∉ defaultKeys rest := by simpa using hwf.1.1
+      have hnn : k0 ∉ nanKeys rest := fun hm => hnd (nanKeys_sub_defaultKeys rest k0 hm)
+      have ih' := ih cfg' out hwf.2 hR k
+      simp only [runAction] at hA
+      cases hl0 : Dict.lookup cfg k0 with
+      | none =>
+        simp [hl0] at hA; subst hA
+        rw [ih', lookup_setKey]
+        by_cases e : k0 = k
+        · subst e
+          simp [hl0, defaultOf, nanFix_of_not_mem rest k0 v0 hnn]
+        · simp [e, defaultOf]
+          cases Dict.lookup cfg k <;> simp [nanFix_elif_ne _ _ _ _ _ e]
+      | some cur =>
+        simp [hl0] at hA
+        by_cases hp : pyEq cur (.str "NaN") = true
+        · simp [hp] at hA; subst hA
+          rw [ih', lookup_setKey]
+          by_cases e : k0 = k
+          · subst e
+            simp [hl0, nanFix_elif_self_nan _ _ _ _ hp, nanFix_of_not_mem rest k0 _ hnn]
+          · simp [e]
+            cases Dict.lookup cfg k <;> simp [nanFix_elif_ne _ _ _ _ _ e, defaultOf, e]
+        · simp [hp] at hA; subst hA
+          rw [ih']
+          by_cases e : k0 = k
+          · subst e
+            simp [hl0, nanFix_elif_self_not _ _ _ _ hp, nanFix_of_not_mem rest k0 _ hnn]
+          · cases Dict.lookup cfg k <;> simp [nanFix_elif_ne _ _ _ _ _ e, defaultOf, e]
+    | guardNe k0 v0 e0 =>
+      simp only [wfActions, Bool.and_eq_true] at hwf
+      have ih' := ih cfg' out hwf.2 hR k
+      have : cfg' = cfg := by
+        simp only [runAction] at hA
+        cases hl0 : Dict.lookup cfg k0 with
+        | none => simp [hl0] at hA; exact hA.symm
+        | some cur =>
+          simp [hl0] at hA
+          by_cases hp : pyEq cur v0 = true
+          · simp [hp] at hA; exact hA.symm
+          · simp [hp] at hA
+      subst this
+      rw [ih']
+      cases Dict.lookup cfg' k <;> simp [defaultOf]
+    | refuseGrids =>
+      simp only [wfActions] at hwf
+      have ih' := ih cfg' out hwf hR k
+      have : cfg' = cfg := by
+        simp only [runAction] at hA
+        by_cases hg : (l.dispSource.isStr || r.dispSource.isStr) = true
+        · simp [hg] at hA
+        · simp [hg] at hA; exact hA.symm
+      subst this
+      rw [ih']
+      cases Dict.lookup cfg' k <;> simp [defaultOf]
+
+/-- the keys of the result: the user's keys in the user's order, then the omitted defaulted keys
+    in the order of the sequence -/
+theorem runActions_keys (l r : ImgInfo) (acts : List Action) :
+    ∀ (cfg out : Dict), wfActions acts = true → runActions l r acts cfg = .ok out →
+      Dict.keys out = Dict.keys cfg ++ (defaultKeys acts).filter (fun k => !(Dict.keys cfg).contains k) := by
+  induction acts with
+  | nil =>
+    intro cfg out _ h
+    simp [runActions] at h
+    subst h
+    simp [defaultKeys]
+  | cons a rest ih =>
+    intro cfg out hwf h
+    obtain ⟨cfg', hA, hR⟩ := runActions_ok_cons h
+    cases a with
+    | default k0 v0 =>
+      simp only [wfActions, Bool.and_eq_true, Bool.not_eq_true', List.contains_eq_mem,
+        decide_eq_false_iff_not] at hwf
+      have hnd : k0 ∉ defaultKeys rest := by simpa using hwf.1
+      have ih' := ih cfg' out hwf.2 hR
+      simp only [runAction] at hA
+      by_cases hk : Dict.hasKey cfg k0 = true
+      · simp [hk] at hA; subst hA
+        have hm : k0 ∈ Dict.keys cfg := (hasKey_iff_mem_keys cfg k0).1 hk
+        rw [ih']
+        simp [defaultKeys, hm]
+      · simp [hk] at hA; subst hA
+        have hl : Dict.lookup cfg k0 = none := by simpa [Dict.hasKey] using hk
+        have hm : k0 ∉ Dict.keys cfg := (lookup_none_iff cfg k0).1 hl
+        rw [ih', setKey_absent cfg k0 v0 hl]
+        simp only [Dict.keys, List.map_append, List.map_cons, List.map_nil, defaultKeys, List.filter_cons]
+        simp only [Dict.keys] at hm
+        simp [hm]
+        apply List.filter_congr
+        intro x hx
+        have : x ≠ k0 := fun e => hnd (e ▸ hx)
+        simp [this]
+    | defaultElifNaN k0 v0 =>
+      simp only [wfActions, Bool.and_eq_true, Bool.not_eq_true', List.contains_eq_mem,
+        decide_eq_false_iff_not] at hwf
+      have hnd : k0 ∉ defaultKeys rest := by simpa using hwf.1.1
+      have ih' := ih cfg' out hwf.2 hR
+      simp only [runAction] at hA
+      cases hl0 : Dict.lookup cfg k0 with
+      | none =>
+        simp [hl0] at hA; subst hA
+        have hm : k0 ∉ Dict.keys cfg := (lookup_none_iff cfg k0).1 hl0
+        rw [ih', setKey_absent cfg k0 v0 hl0]
+        simp only [Dict.keys, List.map_append, List.map_cons, List.map_nil, defaultKeys, List.filter_cons]
+        simp only [Dict.keys] at hm
+        simp [hm]
+        apply List.filter_congr
+        intro x hx
+        have : x ≠ k0 := fun e => hnd (e ▸ hx)
+        simp [this]
+      | some cur =>
+        have hm : k0 ∈ Dict.keys cfg := by
+          rw [← hasKey_iff_mem_keys]; simp [Dict.hasKey, hl0]
+        have hkeys : Dict.keys cfg' = Dict.keys cfg := by
+          simp [hl0] at hA
+          by_cases hp : pyEq cur (.str "NaN") = true
+          · simp [hp] at hA; subst hA
+            exact keys_setKey_present cfg k0 _ (by simp [hl0])
+          · simp [hp] at hA; subst hA; rfl
+        rw [ih', hkeys]
+        simp [defaultKeys, hm]
+    | guardNe k0 v0 e0 =>
+      simp only [wfActions, Bool.and_eq_true] at hwf
+      have ih' := ih cfg' out hwf.2 hR
+      have : cfg' = cfg := by
+        simp only [runAction] at hA
+        cases hl0 : Dict.lookup cfg k0 with
+        | none => simp [hl0] at hA; exact hA.symm
+        | some cur =>
+          simp [hl0] at hA
+          by_cases hp : pyEq cur v0 = true
+          · simp [hp] at hA; exact hA.symm
+          · simp [hp] at hA
+      subst this
+      rw [ih']; simp [defaultKeys]
+    | refuseGrids =>
+      simp only [wfActions] at hwf
+      have ih' := ih cfg' out hwf hR
+      have : cfg' = cfg := by
+        simp only [runAction] at hA
+        by_cases hg : (l.dispSource.isStr || r.dispSource.isStr) = true
+        · simp [hg] at hA
+        · simp [hg] at hA; exact hA.symm
+      subst this
+      rw [ih']; simp [defaultKeys]
+
+/-- running the sequence again on its own result changes nothing -/
+theorem runActions_idem (l r : ImgInfo) (acts : List Action) :
+    ∀ (cfg out : Dict), wfActions acts = true → runActions l r acts cfg = .ok out →
+      runActions l r acts out = .ok out := by
+  induction acts with
+  | nil => intro cfg out _ _; simp [runActions]
+  | cons a rest ih =>
+    intro cfg out hwf h
+    obtain ⟨cfg', hA, hR⟩ := runActions_ok_cons h
+    have hwfr : wfActions rest = true := by
+      cases a <;> simp only [wfActions, Bool.and_eq_true] at hwf
+      · exact hwf.2
+      · exact hwf.2
+      · exact hwf.2
+      · exact hwf
+    have ihR := ih cfg' out hwfr hR
+    have hlook := runActions_lookup l r rest cfg' out hwfr hR
+    suffices hS : runAction l r out a = .ok out by
+      simp [runActions, hS, ihR]
+    cases a with
+    | default k0 v0 =>
+      -- cfg' has the key, hence out has it
+      have hc : Dict.hasKey cfg' k0 = true := by
+        simp only [runAction] at hA
+        by_cases hk : Dict.hasKey cfg k0 = true
+        · simp [hk] at hA; subst hA; exact hk
+        · simp [hk] at hA; subst hA
+          simp [Dict.hasKey, lookup_setKey]
+      have : Dict.hasKey out k0 = true := by
+        have := hlook k0
+        simp only [Dict.hasKey] at hc ⊢
+        cases hl : Dict.lookup cfg' k0 with
+        | none => simp [hl] at hc
+        | some u => simp [hl] at this; simp [this]
+      simp [runAction, this]
+    | defaultElifNaN k0 v0 =>
+      simp only [wfActions, Bool.and_eq_true, Bool.not_eq_true', List.contains_eq_mem,
+        decide_eq_false_iff_not] at hwf
+      have hnd : k0 ∉ defaultKeys rest := by simpa using hwf.1.1
+      have hnn : k0 ∉ nanKeys rest := fun hm => hnd (nanKeys_sub_defaultKeys rest k0 hm)
+      have hv0 : pyEq v0 (.str "NaN") = false := hwf.1.2
+      -- the value of k0 in cfg' is not "NaN"
+      have hc : ∃ x, Dict.lookup cfg' k0 = some x ∧ pyEq x (.str "NaN") = false := by
+        simp only [runAction] at hA
+        cases hl0 : Dict.lookup cfg k0 with
+        | none =>
+          simp [hl0] at hA; subst hA
+          exact ⟨v0, by simp [lookup_setKey], hv0⟩
+        | some cur =>
+          simp [hl0] at hA
+          by_cases hp : pyEq cur (.str "NaN") = true
+          · simp [hp] at hA; subst hA
+            exact ⟨.float .nan, by simp [lookup_setKey], pyEq_nan_NaN⟩
+          · simp [hp] at hA; subst hA
+            exact ⟨cur, hl0, by simpa using hp⟩
+      obtain ⟨x, hx, hxn⟩ := hc
+      have := hlook k0
+      simp [hx, nanFix_of_not_mem rest k0 x hnn] at this
+      simp [runAction, this, hxn]
+    | guardNe k0 v0 e0 =>
+      simp only [wfActions, Bool.and_eq_true, Bool.not_eq_true', List.contains_eq_mem,
+        decide_eq_false_iff_not] at hwf
+      have hnn : k0 ∉ nanKeys rest := by simpa using hwf.1.1
+      have hpass : cfg' = cfg ∧ (∀ cur, Dict.lookup cfg k0 = some cur → pyEq cur v0 = true) := by
+        simp only [runAction] at hA
+        cases hl0 : Dict.lookup cfg k0 with
+        | none => simp [hl0] at hA; exact ⟨hA.symm, by intro cur hc; simp at hc⟩
+        | some cur =>
+          simp [hl0] at hA
+          by_cases hp : pyEq cur v0 = true
+          · simp [hp] at hA; exact ⟨hA.symm, by intro c hc; simp at hc; subst hc; exact hp⟩
+          · simp [hp] at hA
+      obtain ⟨hcfg, hp⟩ := hpass
+      subst hcfg
+      have := hlook k0
+      cases hl0 : Dict.lookup cfg' k0 with
+      | some cur =>
+        simp [hl0, nanFix_of_not_mem rest k0 cur hnn] at this
+        simp [runAction, this, hp cur hl0]
+      | none =>
+        simp [hl0] at this
+        cases hd : defaultOf rest k0 with
+        | none => simp [hd] at this; simp [runAction, this]
+        | some d =>
+          have hdv : pyEq d v0 = true := by
+            have := hwf.1.2; simp [hd] at this; exact this
+          simp [hd] at this
+          simp [runAction, this, hdv]
+    | refuseGrids =>
+      have : cfg' = cfg := by
+        simp only [runAction] at hA
+        by_cases hg : (l.dispSource.isStr || r.dispSource.isStr) = true
+        · simp [hg] at hA
+        · simp [hg] at hA; exact hA.symm
+      simp only [runAction] at hA ⊢
+      by_cases hg : (l.dispSource.isStr || r.dispSource.isStr) = true
+      · simp [hg] at hA
+      · simp [hg]
+
+/-! ### 3. `classCheck` -/
+
+theorem classCheck_ok {o : Oracle} {c : ClassDesc} {l r : ImgInfo} {cfg out : Dict}
+    (h : classCheck o c l r cfg = .ok out) :
+    runActions l r c.actions cfg = .ok out ∧ Schema.accepts o (.dict c.schema) (.obj out) = true := by
+  unfold classCheck at h
+  cases hA : runActions l r c.actions cfg with
+  | error e => simp [hA] at h
+  | ok cfg' =>
+    simp [hA] at h
+    by_cases hs : Schema.accepts o (.dict c.schema) (.obj cfg') = true
+    · simp [hs] at h; subst h; exact ⟨rfl, hs⟩
+    · simp [hs] at h
+
+/-- acceptance is exactly: the guards pass and the completed dictionary validates -/
+theorem classCheck_ok_iff (o : Oracle) (c : ClassDesc) (l r : ImgInfo) (cfg out : Dict) :
+    classCheck o c l r cfg = .ok out ↔
+      runActions l r c.actions cfg = .ok out ∧ Schema.accepts o (.dict c.schema) (.obj out) = true := by
+  constructor
+  · exact classCheck_ok
+  · intro ⟨h1, h2⟩
+    simp [classCheck, h1, h2]
+
+/-- **user keys kept**: every key the user supplied is in the result with its value (the string
+    `"NaN"` of a NaN-rewriting key becomes the float) … -/
+theorem classCheck_user_values_kept {o : Oracle} {c : ClassDesc} {l r : ImgInfo} {cfg out : Dict}
+    (hwf : wfActions c.actions = true) (h : classCheck o c l r cfg = .ok out) (k : String) (u : JVal)
+    (hk : Dict.lookup cfg k = some u) : Dict.lookup out k = some (nanFix c.actions k u) := by
+  have := runActions_lookup l r c.actions cfg out hwf (classCheck_ok h).1 k
+  simpa [hk] using this
+
+/-- … and at its position: the user's keys, in the user's order, are the first keys of the result -/
+theorem classCheck_user_positions_kept {o : Oracle} {c : ClassDesc} {l r : ImgInfo} {cfg out : Dict}
+    (hwf : wfActions c.actions = true) (h : classCheck o c l r cfg = .ok out) :
+    (Dict.keys out).take (Dict.keys cfg).length = Dict.keys cfg := by
+  rw [runActions_keys l r c.actions cfg out hwf (classCheck_ok h).1]
+  simp
+
+/-- **defaults added**: every omitted key with a default appears with that default, after the
+    user's keys, in the order of the sequence; nothing else is added -/
+theorem classCheck_defaults_added {o : Oracle} {c : ClassDesc} {l r : ImgInfo} {cfg out : Dict}
+    (hwf : wfActions c.actions = true) (h : classCheck o c l r cfg = .ok out) :
+    (∀ k, Dict.lookup cfg k = none → Dict.lookup out k = defaultOf c.actions k) ∧
+    Dict.keys out = Dict.keys cfg ++ (defaultKeys c.actions).filter (fun k => !(Dict.keys cfg).contains k) := by
+  refine ⟨?_, runActions_keys l r c.actions cfg out hwf (classCheck_ok h).1⟩
+  intro k hk
+  have := runActions_lookup l r c.actions cfg out hwf (classCheck_ok h).1 k
+  simpa [hk] using this
+
+/-- **idempotent**: checking the returned dictionary again returns it unchanged -/
+theorem classCheck_idempotent {o : Oracle} {c : ClassDesc} {l r : ImgInfo} {cfg out : Dict}
+    (hwf : wfActions c.actions = true) (h : classCheck o c l r cfg = .ok out) :
+    classCheck o c l r out = .ok out := by
+  obtain ⟨h1, h2⟩ := classCheck_ok h
+  simp [classCheck, runActions_idem l r c.actions cfg out hwf h1, h2]
+
+/-! ### 4. The generated tables -/
+
+open Pandora.Generated.Schemas
+
+/-- every built-in class of the source, with its step kind -/
+def allClasses : List (String × ClassDesc) :=
+  registry.flatMap (fun k => k.classes.map (fun c => (k.kind, c)))
+
+/-- the default sequences of the source are well-formed (so the theorems of §2–§3 apply) -/
+theorem generated_wf : allClasses.all (fun kc => wfActions kc.2.actions) = true := by decide
+
+theorem generated_wf_of_mem {kc : String × ClassDesc} (h : kc ∈ allClasses) :
+    wfActions kc.2.actions = true := by
+  have := generated_wf
+  rw [List.all_eq_true] at this
+  exact this kc h
+
+/-- the class of the source and the documented class agree on: the parameter set, which
+    parameters have a default, the documented default values, the optional key, the method key -/
+def defaultsAgree (c : ClassDesc) (d : DocClass) : Bool :=
+  d.params.all (fun p =>
+    match p.default with
+    | .value v => defaultOf c.actions p.name == some v
+    | .optional => (defaultOf c.actions p.name).isNone && c.schema.any (fun e => e.1 == p.name && e.2.1)
+    | .unsettled => (defaultOf c.actions p.name).isSome) &&
+  (defaultKeys c.actions).all (fun k => d.params.any (fun p => p.name == k)) &&
+  c.schema.all (fun e => e.1 == d.methodKey || d.params.any (fun p => p.name == e.1)) &&
+  d.params.all (fun p => c.schema.any (fun e => e.1 == p.name)) &&
+  c.schema.any (fun e => e.1 == d.methodKey && !e.2.1)
+
+/-- **defaults documented**: window_size 5, subpix 1, cbca 30.0/5, invalid_disparity −9999,
+    filter_size 3, sigma 2.0/6.0, eta 0.7/0.01, cross_checking_threshold 1.0, num_scales 2,
+    scale_factor 2, marge 1 (and the others of the user guide): what the source inserts is what
+    the documentation table says, for every registered method of every class -/
+theorem generated_defaults_documented :
+    allClasses.all (fun kc => kc.2.names.all (fun m =>
+      match docClass? kc.1 m with
+      | some d => defaultsAgree kc.2 d
+      | none => false)) = true := by decide
+
+/-- every documented method is a registered one (no documented method is missing in the source) -/
+theorem documented_methods_registered :
+    docTable.all (fun d => d.methods.all (fun m =>
+      allClasses.any (fun kc => kc.1 == d.kind && kc.2.names.contains m))) = true := by decide
+
+/-- the method-name entry of a class's schema accepts the names the class is registered under -/
+theorem method_entry_accepts_names :
+    registry.all (fun k => k.classes.all (fun c => c.names.all (fun m =>
+      Schema.accepts noOracle (.dict (c.schema.filter (fun e => e.1 == k.methodKey)))
+        (.obj [(k.methodKey, .str m)])))) = true := by decide
+
+/-! ### 5. Every schema entry against its documented domain, for all values -/
+
+/-- what "the check agrees with the documentation on this value" means -/
+def Agrees (b : Bool) : Dom → Prop
+  | .accept => b = true
+  | .reject => b = false
+  | .undecided => True
+
+/-- the schema of key `k` in class `c` (the unsatisfiable `Or()` when absent) -/
+def entry (c : ClassDesc) (k : String) : Schema :=
+  match c.schema.find? (fun e => e.1 == k) with
+  | some e => e.2.2
+  | none => .any []
+
+macro "schema_simp" : tactic => `(tactic|
+  simp [entry, List.find?, Schema.accepts, Schema.acceptsAll, Schema.acceptsAny, Schema.keptByOr,
+    PyType.isInstance, PyType.isExactly, Expr.holds, Expr.eval, pyCmp, pyMod, pyBitand, pyEq, cmpNum,
+    JVal.toNum?, JVal.truthy, JVal.isNull, Num.lt, Num.le, Num.eq, DomKind.dom, Agrees, ofBool,
+    npIsnanTruth, npArray, fIsNan, npIsscalarVal, FVal.lt, FVal.le, FVal.eq, FVal.ofInt, fPos, fUnitOpen,
+    fUnitClosed, fGeOne])
+
+theorem shape_oddPositiveInt (v : JVal) :
+    Agrees (Schema.accepts noOracle (entry SadSsd "window_size") v) (DomKind.oddPositiveInt.dom v) := by
+  cases v <;> simp only [SadSsd] <;> schema_simp
+  rename_i i
+  by_cases h1 : 0 < i <;> by_cases h2 : i % 2 = 0 <;> by_cases h3 : (1 ≤ i ∧ i % 2 = 1) <;>
+    simp [h1, h2, h3] <;> omega
+
+theorem shape_filterSize (v : JVal) :
+    Agrees (Schema.accepts noOracle (entry MedianFilter "filter_size") v) (DomKind.oddPositiveInt.dom v) := by
+  cases v <;> simp only [MedianFilter] <;> schema_simp
+  rename_i i
+  by_cases h1 : 1 ≤ i <;> by_cases h2 : i % 2 = 0 <;> by_cases h3 : (1 ≤ i ∧ i % 2 = 1) <;>
+    simp [h1, h2, h3] <;> omega
+
+theorem shape_census35 (v : JVal) :
+    Agrees (Schema.accepts noOracle (entry Census "window_size") v) (DomKind.census35.dom v) := by
+  cases v <;> simp only [Census] <;> schema_simp
+  rename_i i
+  by_cases h1 : i = 3 <;> by_cases h2 : i = 5 <;> simp [h1, h2]
+
+theorem shape_subpix (v : JVal) :
+    Agrees (Schema.accepts noOracle (entry SadSsd "subpix") v) (DomKind.subpix.dom v) := by
+  cases v <;> simp only [SadSsd] <;> schema_simp
+  rename_i i
+  by_cases h1 : 0 < i <;> by_cases h2 : i % 2 = 0 <;> by_cases h3 : i = 1 <;> by_cases h4 : i = 2 <;>
+    by_cases h5 : i = 4 <;> simp [h1, h2, h3, h4, h5] <;> omega
+
+theorem shape_strOrNone (v : JVal) :
+    Agrees (Schema.accepts noOracle (entry SadSsd "band") v) (DomKind.strOrNone.dom v) := by
+  cases v <;> simp only [SadSsd] <;> schema_simp
+
+theorem shape_positiveFloat (v : JVal) :
+    Agrees (Schema.accepts noOracle (entry CrossBasedCostAggregation "cbca_intensity") v)
+      (DomKind.positiveFloat.dom v) := by
+  cases v <;> simp only [CrossBasedCostAggregation] <;> schema_simp
+  rename_i f
+  cases f <;> schema_simp
+  rename_i q
+  by_cases h1 : 0 < q <;> simp [h1]
+
+theorem shape_positiveInt (v : JVal) :
+    Agrees (Schema.accepts noOracle (entry CrossBasedCostAggregation "cbca_distance") v)
+      (DomKind.positiveInt.dom v) := by
+  cases v <;> simp only [CrossBasedCostAggregation] <;> schema_simp
+  rename_i i
+  by_cases h1 : 0 < i <;> simp [h1] <;> omega
+
+theorem shape_anyStr (v : JVal) :
+    Agrees (Schema.accepts noOracle (entry MedianForIntervalsFilter "interval_indicator") v)
+      (DomKind.anyStr.dom v) := by
+  cases v <;> simp only [MedianForIntervalsFilter] <;> schema_simp
+
+theorem shape_anyBool (v : JVal) :
+    Agrees (Schema.accepts noOracle (entry MedianForIntervalsFilter "regularization") v)
+      (DomKind.anyBool.dom v) := by
+  cases v <;> simp only [MedianForIntervalsFilter] <;> schema_simp
+
+theorem shape_ambiguityThreshold (v : JVal) :
+    Agrees (Schema.accepts noOracle (entry MedianForIntervalsFilter "ambiguity_threshold") v)
+      (DomKind.ambiguityThreshold.dom v) := by
+  cases v <;> simp only [MedianForIntervalsFilter] <;> schema_simp
+  rename_i f
+  cases f <;> schema_simp
+  rename_i q
+  by_cases h1 : 0 < q <;> by_cases h2 : q < 1 <;> by_cases h3 : 0 ≤ q <;> by_cases h4 : q ≤ 1 <;>
+    by_cases h5 : q = 0 <;> by_cases h6 : q = 1 <;> simp [h1, h2, h3, h4, h5, h6] <;> grind
+
+theorem shape_unitClosedFloat (v : JVal) :
+    Agrees (Schema.accepts noOracle (entry MedianForIntervalsFilter "quantile_regularization") v)
+      (DomKind.unitClosedFloat.dom v) := by
+  cases v <;> simp only [MedianForIntervalsFilter] <;> schema_simp
+  rename_i f
+  cases f <;> schema_simp
+  rename_i q
+  by_cases h3 : 0 ≤ q <;> by_cases h4 : q ≤ 1 <;> simp [h3, h4]
+
+theorem shape_kernelSize (v : JVal) :
+    Agrees (Schema.accepts noOracle (entry MedianForIntervalsFilter "ambiguity_kernel_size") v)
+      (DomKind.kernelSize.dom v) := by
+  cases v <;> simp only [MedianForIntervalsFilter] <;> schema_simp
+  rename_i i
+  by_cases h1 : 0 < i <;> by_cases h2 : i % 2 = 1 <;> by_cases h3 : i < 0 <;>
+    simp [h1, h2, h3] <;> omega
+
+theorem shape_intGe0 (v : JVal) :
+    Agrees (Schema.accepts noOracle (entry MedianForIntervalsFilter "vertical_depth") v)
+      ((DomKind.intGe 0).dom v) := by
+  cases v <;> simp only [MedianForIntervalsFilter] <;> schema_simp
+  rename_i i
+  by_cases h1 : 0 ≤ i <;> simp [h1] <;> omega
+
+theorem shape_intGe2 (v : JVal) :
+    Agrees (Schema.accepts noOracle (entry FixedZoomPyramid "num_scales") v)
+      ((DomKind.intGe 2).dom v) := by
+  cases v <;> simp only [FixedZoomPyramid] <;> schema_simp
+  rename_i i
+  by_cases h1 : 1 < i <;> by_cases h2 : 2 ≤ i <;> simp [h1, h2] <;> omega
+
+theorem shape_number (v : JVal) :
+    Agrees (Schema.accepts noOracle (entry CrossCheckingAccurate "cross_checking_threshold") v)
+      (DomKind.number.dom v) := by
+  cases v <;> simp only [CrossCheckingAccurate] <;> schema_simp
+
+theorem shape_interpolation (v : JVal) :
+    Agrees (Schema.accepts noOracle (entry CrossCheckingAccurate "interpolated_disparity") v)
+      (DomKind.interpolation.dom v) := by
+  cases v <;> simp only [CrossCheckingAccurate] <;> schema_simp
+  rename_i s
+  by_cases h1 : s = "sgm" <;> by_cases h2 : s = "mc-cnn" <;> by_cases h3 : s = "mc_cnn" <;>
+    simp [h1, h2, h3]
+
+theorem shape_etaFloat (v : JVal) :
+    Agrees (Schema.accepts noOracle (entry Ambiguity "eta_max") v) (DomKind.etaFloat.dom v) := by
+  cases v <;> simp only [Ambiguity] <;> schema_simp
+  rename_i f
+  cases f <;> schema_simp
+  rename_i q
+  by_cases h1 : 0 < q <;> by_cases h2 : q < 1 <;> by_cases h3 : 1 ≤ q <;>
+    simp [h1, h2, h3] <;> grind
+
+/-- `invalid_disparity`: `Or(int, float, lambda x: np.isnan(x))`.
+    Full-strength statement (FALSE of the code, see `nan_in_list_counterexample`):
+      ∀ v, Agrees (accepts (entry WinnerTakesAll "invalid_disparity") v) (DomKind.numberOrNaN.dom v)
+    Proved: the same for every value that is not a list.  A (nested) list holding exactly one
+    number, a NaN, makes `np.isnan(v)` truthy and is accepted although the documentation only
+    allows numbers (known finding `nan_in_list`). -/
+theorem shape_numberOrNaN_partial (v : JVal) (hv : v.isList = false) :
+    Agrees (Schema.accepts noOracle (entry WinnerTakesAll "invalid_disparity") v)
+      (DomKind.numberOrNaN.dom v) := by
+  cases v <;> simp only [WinnerTakesAll] <;> schema_simp
+  simp [JVal.isList] at hv
+
+/-- the entry as it is written in the tree the finding was made on -/
+def bareIsnanEntry : Schema := .any [.type .int, .type .float, .func (.npIsnan .var)]
+
+theorem nan_in_list_counterexample :
+    Schema.accepts noOracle bareIsnanEntry (.list [.float .nan]) = true ∧
+    Schema.accepts noOracle bareIsnanEntry (.list [.list [.float .nan]]) = true ∧
+    DomKind.numberOrNaN.dom (.list [.float .nan]) = Dom.reject := by decide
+
+/-- with the proposed fix (`np.isscalar(x) and np.isnan(x)`) the list is refused and numbers keep
+    their verdict -/
+theorem nan_in_list_fixed :
+    let fixed : Schema := .any [.type .int, .type .float,
+      .func (.and (.npIsscalar .var) (.npIsnan .var))]
+    Schema.accepts noOracle fixed (.list [.float .nan]) = false ∧
+    Schema.accepts noOracle fixed (.float .nan) = true ∧
+    Schema.accepts noOracle fixed (.int (-9999)) = true ∧
+    Schema.accepts noOracle fixed (.str "x") = false := by decide
+
+/-- `step`: the guard `cfg["step"] != 1` and the schema entry together against "only 1" -/
+theorem shape_stepOne (v : JVal) :
+    Agrees (pyEq v (.int 1) && Schema.accepts noOracle (entry SadSsd "step") v) (DomKind.stepOne.dom v) := by
+  cases v <;> simp only [SadSsd] <;> schema_simp
+  rename_i i
+  by_cases h1 : i = 1 <;> simp [h1]
+
+/-- the distinct (schema, documented domain) pairs of the source, one representative each -/
+def shapes : List (Schema × DomKind) := [
+  (entry SadSsd "window_size", .oddPositiveInt),
+  (entry MedianFilter "filter_size", .oddPositiveInt),
+  (entry Census "window_size", .census35),
+  (entry SadSsd "subpix", .subpix),
+  (entry SadSsd "band", .strOrNone),
+  (entry CrossBasedCostAggregation "cbca_intensity", .positiveFloat),
+  (entry CrossBasedCostAggregation "cbca_distance", .positiveInt),
+  (entry MedianForIntervalsFilter "interval_indicator", .anyStr),
+  (entry MedianForIntervalsFilter "regularization", .anyBool),
+  (entry MedianForIntervalsFilter "ambiguity_threshold", .ambiguityThreshold),
+  (entry MedianForIntervalsFilter "quantile_regularization", .unitClosedFloat),
+  (entry MedianForIntervalsFilter "ambiguity_kernel_size", .kernelSize),
+  (entry MedianForIntervalsFilter "vertical_depth", .intGe 0),
+  (entry FixedZoomPyramid "num_scales", .intGe 2),
+  (entry CrossCheckingAccurate "cross_checking_threshold", .number),
+  (entry CrossCheckingAccurate "interpolated_disparity", .interpolation),
+  (entry Ambiguity "eta_max", .etaFloat),
+  (entry WinnerTakesAll "invalid_disparity", .numberOrNaN)]
+
+/-- the one place where the code is known to accept more than documented -/
+def nanListException (d : DomKind) (v : JVal) : Bool := d == .numberOrNaN && v.isList
+
+theorem shapes_agree (sd : Schema × DomKind) (h : sd ∈ shapes) (v : JVal)
+    (hex : nanListException sd.2 v = false) :
+    Agrees (Schema.accepts noOracle sd.1 v) (sd.2.dom v) := by
+  simp only [shapes, List.mem_cons, List.mem_nil_iff, or_false] at h
+  rcases h with rfl | rfl | rfl | rfl | rfl | rfl | rfl | rfl | rfl | rfl | rfl | rfl | rfl | rfl | rfl | rfl | rfl | rfl
+  · exact shape_oddPositiveInt v
+  · exact shape_filterSize v
+  · exact shape_census35 v
+  · exact shape_subpix v
+  · exact shape_strOrNone v
+  · exact shape_positiveFloat v
+  · exact shape_positiveInt v
+  · exact shape_anyStr v
+  · exact shape_anyBool v
+  · exact shape_ambiguityThreshold v
+  · exact shape_unitClosedFloat v
+  · exact shape_kernelSize v
+  · exact shape_intGe0 v
+  · exact shape_intGe2 v
+  · exact shape_number v
+  · exact shape_interpolation v
+  · exact shape_etaFloat v
+  · exact shape_numberOrNaN_partial v (by simpa [nanListException] using hex)
+
+/-- every (class, registered method, documented parameter) of the source, with the schema entry
+    the source gives it and the domain the documentation gives it (`step` is treated with its
+    guard in `shape_stepOne` / `step_rows`) -/
+def rows : List (Schema × DomKind) :=
+  allClasses.flatMap fun kc => kc.2.names.flatMap fun m =>
+    match docClass? kc.1 m with
+    | some d => (d.params.filter (fun p => p.name != "step")).map (fun p => (entry kc.2 p.name, p.dom))
+    | none => []
+
+theorem rows_are_shapes : rows.all (fun r => decide (r ∈ shapes)) = true := by decide
+
+/-- the `step` entries of all classes are the one of `shape_stepOne` -/
+theorem step_rows :
+    allClasses.all (fun kc => !(kc.2.schema.any (fun e => e.1 == "step")) ||
+      decide (entry kc.2 "step" = entry SadSsd "step")) = true := by decide
+
+/-- **parameters policed**: for every parameter of every built-in method and EVERY value, the
+    schema of the source accepts the value when the documentation says it is legal and refuses it
+    when the documentation says it is not (wrong type included) — except the finding above. -/
+theorem parameters_policed (r : Schema × DomKind) (hr : r ∈ rows) (v : JVal)
+    (hex : nanListException r.2 v = false) :
+    Agrees (Schema.accepts noOracle r.1 v) (r.2.dom v) := by
+  have h := rows_are_shapes
+  rw [List.all_eq_true] at h
+  exact shapes_agree r (by simpa using h r hr) v hex
+
+/-- the table is not empty -/
+theorem rows_count : rows.length = 47 := by decide
+
+/-! ### 6. Non-vacuity and counterexamples (findings) -/
+
+deriving instance DecidableEq for Except
+
+def monoL : ImgInfo := { bands := [none], dispSource := .list [.int (-2), .int 2] }
+def monoR : ImgInfo := { bands := [none], dispSource := .null }
+
+/-- a concrete completion: user keys first (value and position kept), then the defaults -/
+example :
+    classCheck noOracle SadSsd monoL monoR
+      [("window_size", .int 3), ("matching_cost_method", .str "sad")] =
+    .ok [("window_size", .int 3), ("matching_cost_method", .str "sad"), ("subpix", .int 1),
+         ("band", .null), ("step", .int 1)] := by decide
+
+example :
+    classCheck noOracle WinnerTakesAll monoL monoR
+      [("disparity_method", .str "wta"), ("invalid_disparity", .str "NaN")] =
+    .ok [("disparity_method", .str "wta"), ("invalid_disparity", .float .nan)] := by decide
+
+example : classCheck noOracle SadSsd monoL monoR
+    [("matching_cost_method", .str "sad"), ("window_size", .int 4)] = .error .checker := by decide
+
+example : classCheck noOracle SadSsd monoL monoR
+    [("matching_cost_method", .str "sad"), ("step", .int 2)] = .error .value := by decide
+
+def isOk {α} : Except Err α → Bool
+  | .ok _ => true
+  | .error _ => false
+
+def pipelineOf : Except Err (Dict × CState) → Option Dict
+  | .ok (cfg, _) => some cfg
+  | .error _ => none
+
+/-- a whole pipeline on a fresh machine: every step completed, in the user's order -/
+example :
+    pipelineOf (checkPipelineSection noOracle {} registry
+      [("pipeline", .obj [
+        ("matching_cost", .obj [("matching_cost_method", .str "zncc")]),
+        ("disparity", .obj [("disparity_method", .str "wta"), ("invalid_disparity", .str "NaN")]),
+        ("filter", .obj [("filter_method", .str "median")])])] monoL monoR {}) =
+    some [("pipeline", .obj [
+      ("matching_cost", .obj [("matching_cost_method", .str "zncc"), ("window_size", .int 5),
+        ("subpix", .int 1), ("band", .null), ("step", .int 1)]),
+      ("disparity", .obj [("disparity_method", .str "wta"), ("invalid_disparity", .float .nan)]),
+      ("filter", .obj [("filter_method", .str "median"), ("filter_size", .int 3)])])] := by decide
+
+/-- Finding `band_multichar`.  Full-strength statement (FALSE of the code): a `band` that names a
+    band of both images is accepted.  `check_band_pipeline` iterates over the *characters* of the
+    band name, so "red" is looked up as "r", "e", "d" and refused although both images have a band
+    "red" and the documentation's verdict is `accept`. -/
+theorem band_multichar_counterexample :
+    let l : ImgInfo := { bands := [some "red", some "nir"], dispSource := .list [.int (-1), .int 1] }
+    let r : ImgInfo := { bands := [some "red", some "nir"], dispSource := .null }
+    let p : Dict := [("matching_cost", .obj [("matching_cost_method", .str "zncc"), ("band", .str "red")])]
+    pipelineVerdict l r p = Dom.accept ∧
+    isOk (checkPipelineSection noOracle {} registry [("pipeline", .obj p)] l r {}) = false ∧
+    -- the same pipeline with the one-letter name "r" on images with bands r, g is accepted
+    isOk (checkPipelineSection noOracle {} registry
+      [("pipeline", .obj [("matching_cost", .obj [("matching_cost_method", .str "zncc"), ("band", .str "r")])])]
+      { bands := [some "r", some "g"], dispSource := .list [.int (-1), .int 1] }
+      { bands := [some "r", some "g"], dispSource := .null } {}) = true ∧
+    -- with the proposed fix (the string is one band name) the pipeline is accepted
+    isOk (checkPipelineSection noOracle { bandWhole := true } registry [("pipeline", .obj p)] l r {}) = true := by
+  decide
+
+def pipeA : Dict := [("pipeline", .obj [
+  ("matching_cost", .obj [("matching_cost_method", .str "zncc")]),
+  ("aggregation", .obj [("aggregation_method", .str "cbca")]),
+  ("disparity", .obj [("disparity_method", .str "wta")])])]
+
+def pipeB : Dict := [("pipeline", .obj [
+  ("matching_cost", .obj [("matching_cost_method", .str "sad")]),
+  ("disparity", .obj [("disparity_method", .str "wta")])])]
+
+/-- check `pipeA`, then `pipeB` on the same machine, then the configuration returned for `pipeB`
+    on a fresh machine -/
+def reusedMachineWitness (fl : MachineFlags) : Option (List String) × Bool :=
+  match checkPipelineSection noOracle fl registry pipeA monoL monoR {} with
+  | .ok (_, m1) =>
+    match checkPipelineSection noOracle fl registry pipeB monoL monoR m1 with
+    | .ok (out, _) =>
+      (match Dict.lookup out "pipeline" with
+       | some (.obj p) => some (Dict.keys p)
+       | _ => none,
+       isOk (checkPipelineSection noOracle fl registry out monoL monoR {}))
+    | .error _ => (none, true)
+  | .error _ => (none, true)
+
+/-- Finding `reused_machine_stale_steps`.  Full-strength statement (FALSE of the code on a reused
+    machine): checking the returned configuration again returns it unchanged.  The machine keeps
+    `pipeline_cfg` from one `check_conf` to the next, so the steps of an earlier configuration are
+    merged into the configuration returned for a later one — here `aggregation` lands after
+    `disparity` and the returned configuration is itself refused. -/
+theorem reused_machine_counterexample :
+    reusedMachineWitness {} = (some ["matching_cost", "disparity", "aggregation"], false) ∧
+    -- with the proposed fix (`check_conf` empties `pipeline_cfg` first) only the steps of the
+    -- second configuration come back, and checking them again succeeds
+    reusedMachineWitness { resetPipelineCfg := true } = (some ["matching_cost", "disparity"], true) := by
+  decide
+
+/-- on a fresh machine the same second configuration is returned with its own steps only -/
+example :
+    (pipelineOf (checkPipelineSection noOracle {} registry pipeB monoL monoR {})).map
+      (fun c => match Dict.lookup c "pipeline" with | some (.obj p) => Dict.keys p | _ => []) =
+    some ["matching_cost", "disparity"] := by decide
+
+end Pandora.C05
